@@ -4,12 +4,13 @@ use ast_grep_core::language::Language;
 use ast_grep_core::matcher::{Matcher, MatcherExt};
 use ast_grep_core::{AstGrep, Doc, Node, NodeMatch};
 
+#[cfg(not(feature = "verif-hooks"))]
+use std::collections::{HashMap, HashSet};
+
 #[cfg(feature = "verif-hooks")]
 use crate::verif_hooks::SMap as HashMap;
 #[cfg(feature = "verif-hooks")]
 use crate::verif_hooks::VecSet as HashSet;
-#[cfg(not(feature = "verif-hooks"))]
-use std::collections::{HashMap, HashSet};
 
 pub struct ScanResult<'t, 'r, D: Doc, L: Language> {
   pub diffs: Vec<(&'r RuleConfig<L>, NodeMatch<'t, D>)>,
